@@ -49,7 +49,7 @@ package soyhtml
 
 // errorf always panics (the panic is converted to the render error by errRecover).
 //@ func (*state).errorf
-//@   props C03 C06 C12
+//@   props C06
 //@   noreturn
 
 // ---------------------------------------------------------------------------
